@@ -8,6 +8,12 @@ CHECKS = {}
 for _f in sorted(glob.glob(os.path.join(_D, "C*.json"))):
     CHECKS[os.path.basename(_f)[:-5]] = json.load(open(_f))
 
+# Only checks listed in accepted.json are claimed in MANIFEST.json (a check enters the list after it
+# was reviewed, ran silent on the unchanged tree at several seeds and caught planted mutants).
+ACCEPTED = set(CHECKS)
+_af = os.path.join(_D, "accepted.json")
+if os.path.exists(_af):
+    ACCEPTED = set(json.load(open(_af)))
 _ALL = ["C%02d" % i for i in range(1, 21)]
 _NA_REASONS = {}
 _na_file = os.path.join(_D, "not_applicable.json")
@@ -15,7 +21,7 @@ if os.path.exists(_na_file):
     _NA_REASONS = json.load(open(_na_file))
 NOT_APPLICABLE = [
     {"property_id": p, "reason": _NA_REASONS.get(p, "check not built yet (planned, see DESIGN.md section 9)")}
-    for p in _ALL if p not in CHECKS
+    for p in _ALL if p not in CHECKS or p not in ACCEPTED
 ]
 HOOK_COMMITS = []
 _hf = os.path.join(_D, "hook_commits.json")
